@@ -506,8 +506,8 @@ pub fn net_event(a: &Args, grams: &[(String, Vec<u8>)]) -> Value {
     };
     let (responder, discovery, tx) = match setup {
         Ok(Ok(x)) => x,
-        Ok(Err(why)) => return json!({"ev": "NetRun", "cls": "net inconclusive", "sent": 0, "panics": [], "usable": "inconclusive", "answered": "inconclusive", "answered_discovery": "inconclusive", "answered_async": "inconclusive", "answered_async_discovery": "inconclusive", "async_usable": "inconclusive", "note": why}),
-        Err(at) => return json!({"ev": "NetRun", "cls": "net setup", "sent": 0, "panics": [at], "usable": "inconclusive", "answered": "inconclusive", "answered_discovery": "inconclusive", "answered_async": "inconclusive", "answered_async_discovery": "inconclusive", "async_usable": "inconclusive", "note": "panic during setup"}),
+        Ok(Err(why)) => return json!({"ev": "NetRun", "cls": "net inconclusive", "sent": 0, "panics": [], "usable": "inconclusive", "answered": "inconclusive", "answered_discovery": "inconclusive", "answered_async": "inconclusive", "answered_async_discovery": "inconclusive", "async_usable": "inconclusive", "resolver": [], "note": why}),
+        Err(at) => return json!({"ev": "NetRun", "cls": "net setup", "sent": 0, "panics": [at], "usable": "inconclusive", "answered": "inconclusive", "answered_discovery": "inconclusive", "answered_async": "inconclusive", "answered_async_discovery": "inconclusive", "async_usable": "inconclusive", "resolver": [], "note": "panic during setup"}),
     };
     std::thread::sleep(Duration::from_millis(300));
     let target = "224.0.0.251:5353";
@@ -539,16 +539,55 @@ pub fn net_event(a: &Args, grams: &[(String, Vec<u8>)]) -> Value {
     let before_discovery = probe(&sname, simple_dns::QTYPE::ANY, 0x7702, 3);
     let before_aresponder = async_services.is_some() && probe(&arname, simple_dns::TYPE::A.into(), 0x7711, 3);
     let before_adiscovery = async_services.is_some() && probe(&asname, simple_dns::QTYPE::ANY, 0x7712, 3);
+    // the one-shot resolver (sync flavour) keeps resolving the responder's name while the hostile datagrams fly;
+    // responses carrying its query id (0) reach its parsing code
+    let resolver_name = rname.clone();
+    let resolver_thread = std::thread::spawn(move || {
+        crate::util::install_panic_hook();
+        let mut outcomes: Vec<String> = vec![];
+        let r = guarded(|| {
+            let mut res = simple_mdns::sync_discovery::OneShotMdnsResolver::new().map_err(|e| e.to_string())?;
+            res.set_query_timeout(Duration::from_millis(700));
+            res.set_unicast_response(false);
+            let mut v = vec![];
+            for _ in 0..4 {
+                v.push(match res.query_service_address(&resolver_name) {
+                    Ok(Some(ip)) => format!("some {ip}"),
+                    Ok(None) => "none".to_string(),
+                    Err(e) => format!("err {e}"),
+                });
+            }
+            Ok::<Vec<String>, String>(v)
+        });
+        match r {
+            Ok(Ok(v)) => outcomes = v,
+            Ok(Err(e)) => outcomes.push(format!("setup-failed {e}")),
+            Err(at) => outcomes.push(format!("panic {at}")),
+        }
+        outcomes
+    });
     let mut sent = 0u64;
     for (i, (_, d)) in grams.iter().enumerate() {
         if d.len() <= 9000 && tx.send_to(d, target).is_ok() {
             sent += 1;
+        }
+        // the same datagram dressed as a response to the resolver's query id 0
+        if d.len() >= 12 && i % 3 == 0 {
+            let mut r = d.clone();
+            r[0] = 0;
+            r[1] = 0;
+            r[2] |= 0x80;
+            if r[6] == 0 && r[7] == 0 {
+                r[7] = 1;
+            }
+            let _ = tx.send_to(&r, target);
         }
         if i % 25 == 24 {
             std::thread::sleep(Duration::from_millis(20));
         }
     }
     std::thread::sleep(Duration::from_millis(500));
+    let resolver_outcomes = resolver_thread.join().unwrap_or_else(|_| vec!["panic thread".to_string()]);
     let after_responder = probe(&rname, simple_dns::TYPE::A.into(), 0x7703, 6);
     let after_discovery = probe(&sname, simple_dns::QTYPE::ANY, 0x7704, 6);
     let after_aresponder = before_aresponder && probe(&arname, simple_dns::TYPE::A.into(), 0x7713, 6);
@@ -586,5 +625,5 @@ pub fn net_event(a: &Args, grams: &[(String, Vec<u8>)]) -> Value {
     let panics: Vec<String> = FOREIGN_PANICS.lock().map(|v| v.clone()).unwrap_or_default();
     json!({"ev": "NetRun", "cls": "net responder+discovery", "sent": sent, "panics": panics, "usable": usable, "answered": answered,
         "answered_discovery": answered_discovery, "answered_async": answered_async, "answered_async_discovery": answered_async_discovery,
-        "async_usable": async_usable, "note": ""})
+        "async_usable": async_usable, "resolver": resolver_outcomes, "note": ""})
 }
